@@ -237,6 +237,18 @@ theorem crossDevice_problems (env : Env) (st : St) (key : Path × List UInt8) (s
     | some cs =>
       rw [hd] at h
       simp only at h
+      split at h
+      · cases hp : fsPut st1.fs parent (env.tmpName st1.tmpCount (akeys cs))
+            (Node.file (sf.data.take copyPreemptionBytes) 0o600 0 0) false with
+        | none => rw [hp] at h; simp only [Prod.mk.injEq] at h; rw [← h.2]; exact h1
+        | some fs2 =>
+          rw [hp] at h
+          simp only at h
+          rcases hu : opUnlink env { st1 with fs := fs2, tmpCount := st1.tmpCount + 1 } parent
+            (env.tmpName st1.tmpCount (akeys cs)) with ⟨b2, st4⟩
+          have h4 := np_of_quiet (opUnlink_eff env _ parent _ b2 st4 hu).1
+          rw [hu] at h
+          simp only [Prod.mk.injEq] at h; rw [← h.2, h4]; exact h1
       cases hp : fsPut st1.fs parent (env.tmpName st1.tmpCount (akeys cs)) (Node.file sf.data 0o600 0 0) false with
       | none => rw [hp] at h; simp only [Prod.mk.injEq] at h; rw [← h.2]; exact h1
       | some fs2 =>
